@@ -428,6 +428,38 @@ pub fn run(ctx: &Ctx, rep: &mut Report) {
             }
         }
     }
+    // directed: climb with the largest permitted jumps (so that the buffer's
+    // capacity runs well ahead of its length), then probe beyond the limit
+    for szx in 0u8..=6 {
+        let size = 16usize << szx;
+        for payload in [size.min(1200), 1200usize] {
+            for climb in 1..=4usize {
+                let mut steps = Vec::new();
+                let mut len = 0usize;
+                for _ in 0..climb {
+                    // largest block number whose end is within 16 KiB of the buffered length
+                    let num = (len + JUMP - size) / size;
+                    steps.push((
+                        HostileReq { endpoint: 0, mtype: 0, token_len: 0, code: 3, path: vec![b"r".to_vec()], bloat: vec![], block1: Some(RawBlock::Valid { num: num as u32, more: true, szx }), block2: None, payload_len: payload as u16 },
+                        HostileReply { present: true, code: 0x44, body_len: 0, bloat: vec![], preset_block2: None },
+                    ));
+                    len = len.max(num * size + size) - size + payload;
+                }
+                for extra in [1usize, 2, 8, 64, 512, 1024] {
+                    let num = (len + JUMP) / size + extra;
+                    if num > 65535 {
+                        continue;
+                    }
+                    let mut st = steps.clone();
+                    st.push((
+                        HostileReq { endpoint: 0, mtype: 0, token_len: 0, code: 3, path: vec![b"r".to_vec()], bloat: vec![], block1: Some(RawBlock::Valid { num: num as u32, more: extra % 2 == 1, szx }), block2: None, payload_len: 7 },
+                        HostileReply { present: true, code: 0x44, body_len: 0, bloat: vec![], preset_block2: None },
+                    ));
+                    cases.push(Seq { budget: 1280, steps: st });
+                }
+            }
+        }
+    }
     // directed: non-payload parts beyond 1280 bytes on either side
     for (req_bloat, reply_bloat) in [(1300u16, 0u16), (0, 1300), (1400, 1400), (1270, 0), (0, 1270)] {
         for b1 in [None, Some(RawBlock::Valid { num: 0, more: true, szx: 0 })] {
@@ -452,7 +484,7 @@ pub fn run(ctx: &Ctx, rep: &mut Report) {
         ctx,
         rep,
         "directed-hostile-shapes",
-        "budget = request overhead - 12..+30 with Block1 / Block2 / both / none; Block1 jumps within +-2 blocks of 16 KiB for every size exponent after 0..2 buffered blocks; requests and replies whose non-payload part exceeds 1280 bytes under several budgets",
+        "budget = request overhead - 12..+30 with Block1 / Block2 / both / none; Block1 jumps within +-2 blocks of 16 KiB for every size exponent after 0..2 buffered blocks; staircases of 1..4 maximal permitted jumps followed by probes 1..1024 blocks beyond the limit; requests and replies whose non-payload part exceeds 1280 bytes under several budgets",
         false,
         cases,
         check_seq,
